@@ -72,34 +72,40 @@ Definition spec_elem (d : dt) (A : attrs) (mask unpack : bool) (x : num) : optio
     end
   else v.
 
-(* conditions under which apply_masking after a mask=False read can reproduce the
-   masked read *)
-Definition absent_or_usable (d : dt) (a : option attrval) : bool :=
-  match a with
-  | None => true
-  | Some _ => match usable d a with Some _ => true | None => false end
-  end.
-
-Definition one_value (a : option attrval) : bool :=
-  match a with None => true | Some (ANum _ [_]) => true | _ => false end.
-
-Definition two_values (a : option attrval) : bool :=
-  match a with None => true | Some (ANum _ [_; _]) => true | _ => false end.
-
+(* conditions under which apply_masking after a mask=False read reproduces the masked
+   read (after handoff/C07-fix2-3.diff) *)
 Definition present {T} (a : option T) : bool := match a with Some _ => true | None => false end.
 
 (* unpacking does not change the presented values or their type *)
 Definition not_packed (d : dt) (A : attrs) (unpack : bool) : bool :=
   negb unpack || (negb (present (a_scale A)) && negb (present (a_offset A)) && negb (do_view d A unpack)).
 
+(* _FillValue is absent, or one value of the variable's type (the netCDF library refuses
+   to create any other _FillValue attribute) *)
+Definition fill_ok (d : dt) (A : attrs) : bool :=
+  match a_fill A with
+  | None => true
+  | Some (ANum _ [v]) => safe_val d v
+  | _ => false
+  end.
+
 Definition apply_guard (d : dt) (A : attrs) (unpack : bool) : bool :=
-  not_packed d A unpack
-  && absent_or_usable d (a_missing A)
-  && absent_or_usable d (a_fill A) && one_value (a_fill A)
-  && absent_or_usable d (a_vmin A) && one_value (a_vmin A)
-  && absent_or_usable d (a_vmax A) && one_value (a_vmax A)
-  && absent_or_usable d (a_vrange A) && two_values (a_vrange A)
-  && negb (present (a_vrange A) && (present (a_vmin A) || present (a_vmax A))).
+  not_packed d A unpack && fill_ok d A.
+
+(* bounds (and other children masked through their parent): no masking property is taken
+   over from the parent, i.e. each one the parent has is also set on the bounds *)
+Definition covers {T} (own parent : option T) : bool := present own || negb (present parent).
+
+Definition no_inherit (Ab Ap : attrs) : bool :=
+  covers (a_missing Ab) (a_missing Ap) && covers (a_vrange Ab) (a_vrange Ap)
+  && covers (a_vmin Ab) (a_vmin Ap) && covers (a_vmax Ab) (a_vmax Ap).
+
+(* the guard of the superseded code (before fix2-3), kept for Refuted.v *)
+Definition absent_or_usable (d : dt) (a : option attrval) : bool :=
+  match a with
+  | None => true
+  | Some _ => match usable d a with Some _ => true | None => false end
+  end.
 
 (* the stored values are values of the variable's type *)
 Definition raw_ok (d : dt) (x : num) : bool := safe_val d x.
